@@ -148,6 +148,12 @@ class Monitor:
             self.viol('%s: address %s is shared by key ids %s and %s' % (how, wk.address, prev, wk.key_id), wk.address, 'unique address')
         self.addresses[wk.address] = wk.key_id
         ck = (acc, wt, ch)
+        if how.split('(')[0] in ('new_key', 'new_key_change', 'new_keys') and self.kind != 'single' and idx is not None:
+            before = self.chains.get(ck, set())
+            if before and idx <= max(before):
+                # a key-creating request continues after the highest index ever issued on the chain (explicit ones included)
+                self.viol('%s issued index %s on chain %s although index %s was issued before: the next new key must follow the highest issued index'
+                          % (how, idx, ck, max(before)), idx, max(before) + 1)
         self.chains.setdefault(ck, set()).add(idx)
         if explicit:
             self.explicit.add((ck, idx))
